@@ -46,7 +46,7 @@ var profMap = &Profile{
 
 var profDurable = &Profile{
 	Name: "C02-durable", MinOps: 2, MaxOps: 50, NColls: 3, BigKeys: true, BigVals: true,
-	Kinds: []wk{{OpSet, 30}, {OpSetR, 4}, {OpDel, 12}, {OpFlush, 14}, {OpEvict, 4}, {OpReopen, 9}, {OpSetColl, 4}, {OpRmColl, 3}, {OpNames, 1}, {OpGet, 3}},
+	Kinds: []wk{{OpSet, 30}, {OpSetR, 4}, {OpDel, 12}, {OpFlush, 14}, {OpEvict, 4}, {OpReopen, 9}, {OpSetColl, 4}, {OpRmColl, 3}, {OpNames, 1}, {OpRevert, 3}, {OpGet, 3}},
 }
 
 var profSnap = &Profile{
